@@ -489,6 +489,12 @@ def method_of_closure_dict(ds):
     local_map = {"a": 1}
     return ds.Select(lambda e: e.x + local_map.get("a"))
 def method_nested(ds): return ds.Select(lambda e: e.jets.Select(lambda j: j.pt * CUTS.scaled(j.n)))
+CUT5 = 5
+def helper_with_dict(x): return x.f(THR.get("pt"), CUT5)
+def method_of_dict_in_helper(ds): return ds.Select(lambda e: (helper_with_dict(e.pt), CUT5))
+def missing_attr_of_instance(ds): return ds.Select(lambda e: CUTS.nothere + e.pt)
+def missing_method_of_instance(ds): return ds.Select(lambda e: CUTS.nothere(e.pt))
+def missing_attr_of_dict(ds): return ds.Select(lambda e: e.f(THR.nothere))
 def attr_of_callable(ds): return ds.Select(lambda e: e.f(SEL.pt, SEL.bank, helper.cut))
 def attr_of_callable_nested(ds): return ds.Select(lambda e: e.jets.Where(lambda j: j.pt > SEL.pt))
 def enum_class_constant(ds): return ds.Select(lambda e: e.f(Tone.DEFAULT_PT, Tone.__name__))
@@ -501,7 +507,8 @@ def object_routes(ctx):
     names the variable); an attribute of one that happens to be callable too is a value like any other, frozen at the call"""
     m = modgen.load(OBJECT_SRC, "c04obj")
     w = {"objects": True}
-    for name in ("method_of_dict", "method_of_list", "method_of_instance", "method_of_closure_dict", "method_nested"):
+    for name in ("method_of_dict", "method_of_list", "method_of_instance", "method_of_closure_dict", "method_nested", "method_of_dict_in_helper", "missing_attr_of_instance",
+                 "missing_method_of_instance", "missing_attr_of_dict"):
         ctx.case(f"object-route:{name}", True)
         try:
             s = getattr(m, name)(m.DS())
@@ -512,7 +519,7 @@ def object_routes(ctx):
             ctx.violation(f"object-route:exc:{type(e).__name__}", f"{name}: {type(e).__name__}: {str(e)[:160]}", w)
             continue
         lam = s.query_ast.args[1]
-        free = sorted(astx.free_names(lam) & {"THR", "RUNS", "CUTS", "local_map"})
+        free = sorted(astx.free_names(lam) & {"THR", "RUNS", "CUTS", "local_map", "CUT5"})
         if free:
             ctx.violation("captured-name-left-in-query", f"{name}: no ValueError and the recorded lambda still names {free}: {astx.unparse(lam)[:160]}", w)
     for name, want in (("attr_of_callable", [30.0, "AntiKt4", 12.5]), ("enum_class_constant", [30.0, "Tone"])):
